@@ -94,6 +94,10 @@ def plan(tier, seed):
             # the protocol is known but the query is refused: a well-formed error reply
             kw["kitty_graphics"] = rnd.choice(["EINVAL:Unsupported action: q", "ENOTSUPPORTED:graphics are switched off", "EBADF:no such channel"])
         shard = dict(persona="other", persona_kw=kw, seed=seed, index=i, env_term_program=rnd.choice([None, None, ("tmux", "3.3a"), ("vscode", None)]) if xt else rnd.choice([None, (name, version), ("Apple_Terminal", "440"), (name, None)]), timeout=rnd.choice([0.25, 0.4]))
+        # a quarter of the processes first select a style while queries are disabled (what a
+        # program does that asks before its UI is up) and enable them afterwards: what the
+        # terminal then says decides, not what was concluded without asking it
+        shard["disabled_first"] = rnd.random() < 0.25
         shards.append(shard)
     # a fixed set of corner identities, in every run
     def fixed(**kw):
@@ -118,7 +122,7 @@ def plan(tier, seed):
         (fixed(name="Konsole", version="23.08.1", xtversion_style="space", kitty_graphics="ENOTSUPPORTED:c"), None),
     ]
     for j, (kw, tp) in enumerate(corners):
-        shards.append(dict(persona="other", persona_kw=kw, seed=seed, index=len(shards), env_term_program=tp, timeout=0.4))
+        shards.append(dict(persona="other", persona_kw=kw, seed=seed, index=len(shards), env_term_program=tp, timeout=0.4, disabled_first=j % 3 == 2))
     return shards
 
 
@@ -165,6 +169,14 @@ def support_case(shard, env, res):
             os.environ["TERM_PROGRAM_VERSION"] = tp[1]
     if not kw["xtversion"]:
         name, version = tp if tp else (None, None)
+    if shard.get("disabled_first"):
+        term_image.disable_queries()
+        try:
+            ti.auto_image_class()
+            ti.AutoImage
+        finally:
+            term_image.enable_queries()
+        res.count("support detections preceded by a selection made with queries disabled")
     t0 = time.monotonic()
     try:
         auto = ti.auto_image_class()
